@@ -21,6 +21,7 @@ import (
 	"sort"
 	"strconv"
 	"strings"
+	"time"
 
 	"github.com/elliotchance/gedcom/v39"
 )
@@ -358,4 +359,276 @@ func c10Wave2(c *Ctx, k int) {
 		l, rt := c10PerfectPair(r)
 		c10Run(c, l, rt, "perfect-copy", via, minSim)
 	}
+}
+
+// ---------------------------------------------------------------- several unique identifiers
+
+func c10UUID(n int) string { return fmt.Sprintf("%032X", 0x5EED0000+n) }
+
+func c10FSID(n int) string {
+	const a = "BCDFGHJKLMNPQRSTVWXYZ123456789"
+	return fmt.Sprintf("K%c%c%c-%c%c%c", a[n%30], a[n/30%30], a[(n+7)%30], a[(n+11)%30], a[n/7%30], a[(n+3)%30])
+}
+
+// c10MultiUIDPair: individuals that carry two or three unique identifiers (_UID several times, _UID
+// with _FSFTID / _FID) which lead to different individuals of the other document, to one and the
+// same individual, or to nobody; the carrier is on the left or on the right; the people the
+// identifiers lead to may carry them on the carrier's side too. Whatever is matched, every input
+// individual has to end up in exactly one output individual.
+func c10MultiUIDPair(r *Rand) (l, rt *c10ADoc, how string) {
+	w := c10NewWorld(r, 8, 1)
+	for len(w.P) < 4 {
+		w.P = append(w.P, c10NewPerson(r, 300+len(w.P)))
+	}
+	np := len(w.P)
+	rp := "I"
+	if r.Chance(1, 2) {
+		rp = "P" // no pointer in common: only the identifiers and the similarity can match
+	}
+	mk := func(side, ip string) *c10View {
+		v := &c10View{Side: side, IPtr: map[int]string{}, Edit: map[int]c10Person{}, Detail: map[int]uint32{}}
+		for i := 0; i < np; i++ {
+			v.People = append(v.People, i)
+			v.IPtr[i] = ip + strconv.Itoa(i+1)
+		}
+		v.FPtr = c10AllFams(w, map[string]string{"I": "F", "P": "G"}[ip], nil)
+		return v
+	}
+	lv, rv := mk("L", "I"), mk("R", rp)
+	addID := func(v *c10View, i int, id string) {
+		p := v.person(w, i)
+		p.IDs = append(append([]string{}, p.IDs...), id)
+		v.Edit[i] = p
+	}
+	idOf := func(kind, n int) string {
+		switch kind {
+		case 0:
+			return "_UID " + c10UUID(n)
+		case 1:
+			return "_FSFTID " + c10FSID(n)
+		}
+		return "_FID " + c10FSID(n+400)
+	}
+	var hows []string
+	m := 1 + r.Intn(2)
+	for t := 0; t < m; t++ {
+		cv, ov := lv, rv // the carrier's document and the other one
+		dir := "left"
+		if r.Chance(1, 3) {
+			cv, ov, dir = rv, lv, "right"
+		}
+		a := r.Intn(np)
+		nIDs := 2 + r.Intn(2)
+		mode := r.Intn(4)
+		hows = append(hows, fmt.Sprintf("%s-carrier:%s", dir, []string{"different-people", "same-person", "nobody", "mixed"}[mode]))
+		for j := 0; j < nIDs; j++ {
+			kind := r.Intn(3)
+			if j == 0 && r.Chance(2, 3) {
+				kind = 0
+			}
+			n := 1000*t + 10*a + j
+			id := idOf(kind, n)
+			addID(cv, a, id)
+			target := -1
+			switch mode {
+			case 0: // every identifier leads to another individual
+				target = (a + j) % np
+			case 1: // all lead to the carrier's own counterpart
+				target = a
+			case 2: // nobody carries them
+			default:
+				if r.Chance(2, 3) {
+					target = r.Intn(np)
+				}
+			}
+			if target >= 0 {
+				addID(ov, target, id)
+				if target != a && r.Chance(1, 4) {
+					addID(cv, target, id) // the same identifier twice in the carrier's document
+				}
+			}
+		}
+	}
+	// a few people are missing on either side
+	drop := func(v *c10View) {
+		var keep []int
+		for _, i := range v.People {
+			if _, edited := v.Edit[i]; edited || !r.Chance(1, 8) {
+				keep = append(keep, i)
+			}
+		}
+		v.People = keep
+	}
+	drop(lv)
+	drop(rv)
+	l, rt = c10Render(w, lv), c10Render(w, rv)
+	if r.Bool() {
+		rv.Shuffle = r.Perm(len(rt.Indis) + len(rt.Fams))
+		rt = c10Render(w, rv)
+	}
+	if r.Chance(1, 3) {
+		lv.Shuffle = r.Perm(len(l.Indis) + len(l.Fams))
+		l = c10Render(w, lv)
+	}
+	return l, rt, strings.Join(hows, "+")
+}
+
+// ---------------------------------------------------------------- large merges under a watchdog
+
+// c10LargeDoc: n individuals that are nothing but a pointer, an identifier and a marker.
+func c10LargeDoc(n int, side string, uid bool) string {
+	var sb strings.Builder
+	sb.WriteString("0 HEAD\n1 CHAR UTF-8\n")
+	for i := 1; i <= n; i++ {
+		fmt.Fprintf(&sb, "0 @I%d@ INDI\n", i)
+		if uid {
+			fmt.Fprintf(&sb, "1 _UID %032X\n", 0xAB000000+i)
+		}
+		fmt.Fprintf(&sb, "1 _MARK %s%d\n", side, i)
+	}
+	sb.WriteString("0 TRLR\n")
+	return sb.String()
+}
+
+const c10LargeLimit = 25 * time.Second // the unchanged tree needs 0.6 s (n = 1000) to 3 s (n = 4100, q)
+
+// c10Large merges a document of n tiny individuals with its re-marked copy, all of them matched for
+// certain (by _UID under the default options and through q; by pointer with PreferPointerAbove = 0),
+// for sizes around the capacities of the channels between the stages of Compare. The merge has to
+// return, and every individual of either input has to be in exactly one output individual.
+func c10Large(c *Ctx) {
+	sizes := []int{999, 1000, 1001, 2000, 2001, 2002, 2100}
+	variants := []string{"uid/library", "pointer/library", "uid/query", "uid/library-jobs=4", "pointer/library-jobs=2", "uid/library-jobs=16"}
+	type job struct {
+		n       int
+		variant string
+	}
+	var jobs []job
+	if c.Quick() { // quick: every size once, the variants in rotation (the start depends on the seed)
+		off := int(c.Seed % int64(len(variants)))
+		if off < 0 {
+			off = -off
+		}
+		for i, n := range sizes {
+			jobs = append(jobs, job{n, variants[(off+i)%len(variants)]})
+		}
+	} else {
+		for _, n := range append(sizes, 4100) {
+			for _, v := range variants {
+				jobs = append(jobs, job{n, v})
+			}
+		}
+	}
+	for _, j := range jobs {
+		if !c10LargeOne(c, j.n, j.variant) {
+			return // the goroutines of a merge that hangs stay behind: no further large merges
+		}
+	}
+}
+
+func c10LargeOne(c *Ctx, n int, variant string) (returned bool) {
+	parts := strings.SplitN(variant, "/", 2)
+	uid, via := parts[0] == "uid", parts[1]
+	minSim := 0.0
+	if !uid {
+		minSim = -1 // PreferPointerAbove = 0: the shared pointer decides
+	}
+	lt, rtxt := c10LargeDoc(n, "L", uid), c10LargeDoc(n, "R", uid)
+	input := map[string]interface{}{"shape": "large-copy", "n": n, "matched_by": parts[0], "via": via, "min_similarity": minSim,
+		"left": "n records of the form: " + strings.Join(strings.Split(c10LargeDoc(1, "L", uid), "\n")[2:5], " / ") + " (I1..In, L1..Ln)",
+		"right": "the same records with markers R1..Rn"}
+	ld, err1 := gedcom.NewDocumentFromString(lt)
+	rd, err2 := gedcom.NewDocumentFromString(rtxt)
+	if err1 != nil || err2 != nil {
+		c.Oracle("", "a generated document does not decode", input, fmt.Sprint(err1, err2), "decodes")
+		return true
+	}
+	type res struct {
+		out *gedcom.Document
+		err error
+	}
+	done := make(chan res, 1)
+	t0 := time.Now()
+	go func() {
+		out, err := c10Merge(ld, rd, via, minSim)
+		done <- res{out, err}
+	}()
+	var out *gedcom.Document
+	select {
+	case x := <-done:
+		if x.err != nil {
+			c.Oracle("", "the merge of two documents fails", input, x.err.Error(), "a merged document")
+			return true
+		}
+		out = x.out
+	case <-time.After(c10LargeLimit):
+		c.Oracle("", "the merge of two documents does not return", input,
+			fmt.Sprintf("no result after %v", c10LargeLimit), "a merged document within seconds (the same merge of 1000 people takes well under a second)")
+		return false
+	}
+	c.Eval()
+	c.Count("large-merge")
+	c.Count(fmt.Sprintf("large-merge n=%d", n))
+	c.Count("large-merge " + variant)
+	if el := time.Since(t0); el > 5*time.Second {
+		c.Count("large-merge slower than 5 s")
+	}
+	// accounting by markers; pointers identify one record
+	seenL, seenR := make([]int, n+1), make([]int, n+1)
+	ptrs := map[string]int{}
+	var bad []string
+	note := func(s string) {
+		if len(bad) < 8 {
+			bad = append(bad, s)
+		}
+	}
+	nOut := 0
+	for _, ind := range out.Individuals() {
+		nOut++
+		ptrs[ind.Pointer()]++
+		nl, nr := 0, 0
+		for _, k := range ind.Nodes() {
+			if k.Tag().Tag() != "_MARK" {
+				continue
+			}
+			v := k.Value()
+			i, err := strconv.Atoi(v[1:])
+			if err != nil || i < 1 || i > n {
+				note("unknown marker " + v)
+				continue
+			}
+			if v[0] == 'L' {
+				seenL[i]++
+				nl++
+			} else {
+				seenR[i]++
+				nr++
+			}
+		}
+		if nl > 1 || nr > 1 {
+			note(fmt.Sprintf("output individual %s holds %d left and %d right individuals", ind.Pointer(), nl, nr))
+		}
+	}
+	for i := 1; i <= n; i++ {
+		if seenL[i] != 1 {
+			note(fmt.Sprintf("left individual L%d (@I%d@) is represented by %d output individuals", i, i, seenL[i]))
+		}
+		if seenR[i] != 1 {
+			note(fmt.Sprintf("right individual R%d (@I%d@) is represented by %d output individuals", i, i, seenR[i]))
+		}
+	}
+	for p, k := range ptrs {
+		if k != 1 {
+			note(fmt.Sprintf("pointer %s names %d output individuals", p, k))
+		}
+	}
+	if nOut != n {
+		note(fmt.Sprintf("%d output individuals for %d certain pairs", nOut, n))
+	}
+	if len(bad) > 0 {
+		sort.Strings(bad)
+		c.Oracle("", "an individual is dropped, duplicated or merged twice", input, strings.Join(bad, "; "),
+			"every individual of either input in exactly one output individual, every pair merged into one record")
+	}
+	return true
 }
